@@ -156,7 +156,7 @@ def run(chk):
             # sums of the durations and every entry point hands its own four inputs to the common update - C01's R2 / R3
             # obligations, re-derived here per class
             sub = core.Check("C01", chk.tier, chk.root)
-            c01.check_spline_class(sub, F, E, short, cls)
+            history.for_each_outcome(sub, lambda c_: c01.check_spline_class(c_, F, E, short, cls))
             rel = [o for o in sub.obs if o["rule"] in ("C01-R2", "C01-R3")]
             bad = [o for o in rel if not o["ok"]]
             chk.ob("C02-R1", "%s: the system is solved for this call's waypoints, knot times and end conditions (C01-R2 / R3)" % cls, len(rel) >= 10 and not bad, bad[0]["where"] if bad else "",
